@@ -27,11 +27,19 @@ def fresh_real(prefix="r"):
 
 
 class ER:
-    __slots__ = ("k", "v")
+    __slots__ = ("k", "v", "_zn")
 
-    def __init__(self, k, v):
+    def __init__(self, k, v, zn=None):
         self.k = k if z3.is_expr(k) else z3.IntVal(k)
         self.v = v if z3.is_expr(v) else z3.RealVal(v)
+        self._zn = zn
+
+    @property
+    def zn(self):
+        """sign bit of the value when it is a zero (True: -0.0); unknown (fresh) unless tracked"""
+        if self._zn is None:
+            self._zn = fresh_bool()
+        return self._zn
 
     # predicates
     @property
@@ -64,7 +72,9 @@ def const(x) -> ER:
         if x != x: return ER(NAN, 0)
         if x == float("inf"): return ER(PINF, 0)
         if x == float("-inf"): return ER(NINF, 0)
-        return ER(FIN, z3.RealVal(repr(x) if isinstance(x, float) else x))
+        import math
+        return ER(FIN, z3.RealVal(repr(x) if isinstance(x, float) else x),
+                  z3.BoolVal(isinstance(x, float) and math.copysign(1.0, x) < 0))
     if z3.is_expr(x):
         if x.sort() == z3.IntSort():
             return ER(FIN, z3.ToReal(x))
@@ -73,7 +83,7 @@ def const(x) -> ER:
 
 
 def var(name: str) -> ER:
-    return ER(z3.Int(name + ".k"), z3.Real(name + ".v"))
+    return ER(z3.Int(name + ".k"), z3.Real(name + ".v"), z3.Bool(name + ".zneg"))
 
 
 def wf(a: ER):
@@ -81,7 +91,7 @@ def wf(a: ER):
 
 
 def ite(c, a: ER, b: ER) -> ER:
-    return ER(z3.If(c, a.k, b.k), z3.If(c, a.v, b.v))
+    return ER(z3.If(c, a.k, b.k), z3.If(c, a.v, b.v), z3.If(c, a.zn, b.zn))
 
 
 def eq(a: ER, b: ER):
@@ -113,7 +123,7 @@ def mul(a: ER, b: ER) -> ER:
 
 
 def div(a: ER, b: ER, poszero: bool = False) -> ER:
-    zs = z3.BoolVal(False) if poszero else fresh_bool()   # True: the zero divisor is -0
+    zs = z3.BoolVal(False) if poszero else b.zn            # True: the zero divisor is -0
     isnan = z3.Or(a.nan, b.nan, z3.And(a.inf, b.inf), z3.And(a.zero(), b.zero()))
     bz = b.zero()
     res_inf = z3.Or(a.inf, z3.And(bz, z3.Not(a.zero())))
